@@ -2,6 +2,16 @@
 from pyvc.contracts import contract, lemma, record, dict_record, LoopSpec
 import contracts.doctest_part  # noqa: DoctestPart record, callee contracts
 
+record("CodeObj", co_flags="int", co_filename="str", mode="str")
+record("TbCode", co_filename="str")
+record("TbFrame", f_code="TbCode", f_lineno="int")
+record("TbEntry", tb_frame="TbFrame", tb_lineno="int")
+record("Namespace", cleared="bool")
+dict_record("DoctestConfig", on_error="str", verbose="int", default_runtime_state="Val", reportchoice="str",
+            global_exec="Optional[str]")
+# a RuntimeState seen from outside: an abstract value (its lookup semantics is C04)
+record("RuntimeState", state="Val")
+
 # The fields of a DocTest that the functions under contract read or write.
 record("DocTest",
        lineno="int",
@@ -9,7 +19,11 @@ record("DocTest",
        failed_part="DoctestPart|'<IMPORT>'",
        failed_tb_lineno="Optional[int]",
        warn_list="Optional[Val]",
-       callname="str", num="int", docsrc="str", mode="str", modpath="str", config="Val")
+       callname="str", num="int", docsrc="str", mode="str", modpath="str", config="DoctestConfig",
+       _parts="reclist[DoctestPart]", logged_evals="map[int,Val]", logged_stdout="map[int,Val]",
+       _unmatched_stdout="list[str]", _skipped_parts="idxlist[DoctestPart]", _suppressed_stdout="bool",
+       _runstate="Optional[RuntimeState]", _partfilename="str", module="Optional[Val]",
+       global_namespace="Namespace", fpath="Optional[str]", block_type="Optional[str]")
 
 # the dict returned by DocTest.run / _post_run (only the verdict keys are tracked)
 dict_record("RunSummary", passed="bool", failed="bool", skipped="bool")
@@ -52,19 +66,114 @@ contract(_Q + "failed_lineno",
          sentinel=("relative-not-absolute", "implies(self.exc_info is not None and self.failed_part == '<IMPORT>', result == 0)"))
 
 
-# ------------------------------------------------------------------------ run (interface used by the callers)
-contract(_Q + "run",
-         params={"self": "DocTest", "verbose": "Optional[int]", "on_error": "Optional[str]"}, returns="RunSummary",
-         trusted=True,
-         ensures=[("one-verdict", "(result['passed'] and not result['failed'] and not result['skipped']) or "
-                                  "(not result['passed'] and result['failed'] and not result['skipped']) or "
-                                  "(not result['passed'] and not result['failed'] and result['skipped'])")],
-         raises={"KeyboardInterrupt?": None, "SystemExit?": None, "Skipped?": None,
-                 "Exception*?": "on_error != 'return'"},
-         props=["C09", "C10", "C15"],
-         note="interface of run as its callers see it: exactly one verdict; with on_error='return' no exception of class "
-              "Exception escapes (C09.noraise)")
+# ------------------------------------------------------------------------ callees of run
+contract("xdoctest.doctest_example:DoctestConfig.getvalue",
+         params={"self": "DoctestConfig", "key": "'on_error'|'verbose'|'global_exec'", "given": "Optional[Val]"}, returns="Val",
+         trusted=True, log=False,
+         opts={"functional": "self[key] if given is None else given", "substitute": True},
+         note="a 4-line function: the configured value unless an override is given (used by substitution, "
+              "so that the two cases do not double the paths of run)")
 
+contract("xdoctest.directive:RuntimeState.__init__",
+         params={"self": "RuntimeState", "default_state": "Val"}, trusted=True, log=False,
+         modifies=["self.state"],
+         note="assumed here; verified under C04/C11 (fresh deep copy of the defaults + the given defaults)")
+contract("xdoctest.directive:RuntimeState.set_report_style",
+         params={"self": "RuntimeState", "reportchoice": "str", "state": "Optional[Val]"}, trusted=True, log=False,
+         modifies=["self.state"],
+         ensures=[("skip-untouched", "S.rs_skip(self.state) == S.rs_skip(old(self.state))")],
+         note="assumed here (only REPORT_* keys change); C04")
+contract("xdoctest.directive:RuntimeState.update",
+         params={"self": "RuntimeState", "directives": "Val"}, trusted=True,
+         modifies=["self.state"], raises={"Exception*?": None},
+         note="assumed here: new state = DirectiveSpec.update(old state, directives); may raise any Exception on a "
+              "malformed directive; C04.update")
+contract("xdoctest.doctest_part:DoctestPart.directives",
+         params={"self": "DoctestPart"}, returns="Val", trusted=True, log=False,
+         note="T: tokenizer-based extraction of directive comments (static.extract_comments); assumed not to raise for "
+              "parts produced by the parser: the same extraction already succeeded statement by statement in _package_chunk")
+contract("xdoctest.doctest_part:DoctestPart.has_any_code",
+         params={"self": "DoctestPart"}, returns="bool", trusted=True, log=False,
+         ensures=[("def", "result == S.has_code(self.exec_lines)")],
+         note="assumed: some line is neither blank nor a comment")
+contract("xdoctest.doctest_part:DoctestPart.compilable_source",
+         params={"self": "DoctestPart"}, returns="str", modifies=[], log=False,
+         ensures=[("lines-joined", "result == ('\\n'.join(self.exec_lines + ['']) if self.compile_mode == 'single' "
+                                   "else '\\n'.join(self.exec_lines))")],
+         props=["C01"], opts={"native": False})
+contract(_Q + "_parse", params={"self": "DocTest"}, trusted=True, log=False, modifies=["self._parts"],
+         note="assumed here: afterwards _parts is some list of DoctestPart objects (C13/C14 are about its content)")
+contract(_Q + "_pre_run", params={"self": "DocTest", "verbose": "int"}, trusted=True, log=False, modifies=[],
+         note="T: prints a banner")
+contract(_Q + "_import_module", params={"self": "DocTest"}, trusted=True, modifies=["self.module"],
+         raises={"Exception*?": None},
+         note="T: importlib; leaves sys.path as found (C12.syspath is the contract of import_module_from_path)")
+contract(_Q + "_test_globals", params={"self": "DocTest"}, returns="tuple[Namespace,int]", trusted=True,
+         ensures=[("same-dict", "result[0] is self.global_namespace")],
+         opts={"result_alias": {0: "self.global_namespace"}},
+         note="assumed here: the dict handed to exec is self.global_namespace (module entries are copied into it); C11.globals")
+contract(_Q + "_color", params={"self": "DocTest", "text": "str", "color": "str", "enabled": "Optional[bool]"},
+         returns="str", trusted=True, log=False, note="T: presentation")
+contract(_Q + "_print_captured", params={"self": "DocTest"}, trusted=True, log=False, modifies=[], note="T: prints")
+contract(_Q + "repr_failure", params={"self": "DocTest", "with_tb": "bool"}, returns="list[str]", trusted=True, log=False,
+         requires=[("failure-recorded", "self.exc_info is not None")],
+         note="assumed here: renders without raising when a failure is recorded (its own contract is C09.render)")
+contract("xdoctest.utils.util_str:codeblock", params={"block_str": "str"}, returns="str", trusted=True, log=False,
+         note="T: dedent")
+
+# ------------------------------------------------------------------------ _post_run: the verdict (C02.verdict)
+contract(_Q + "_post_run",
+         params={"self": "DocTest", "verbose": "int"}, returns="RunSummary",
+         modifies=[],
+         ensures=[("failed-iff-exc-info", "result['failed'] == (self.exc_info is not None)"),
+                  ("skipped-iff-all-parts-skipped", "result['skipped'] == (len(self._skipped_parts) == len(self._parts))"),
+                  ("passed-iff-neither", "result['passed'] == (not result['failed'] and not result['skipped'])")],
+         props=["C02", "C09", "C10", "C15"], opts={"native": False},
+         sentinel=("passed-when-skipped", "result['passed'] == (not result['failed'])"))
+
+# ------------------------------------------------------------------------ run
+_ONE = ("(result['passed'] and not result['failed'] and not result['skipped']) or "
+        "(not result['passed'] and result['failed'] and not result['skipped']) or "
+        "(not result['passed'] and not result['failed'] and result['skipped'])")
+
+contract(_Q + "run",
+         params={"self": "DocTest", "verbose": "Maybe[int]", "on_error": "Maybe[str]"}, returns="RunSummary",
+         globals={"sys.stdout": "Val"},
+         requires=[("no-global-exec", "not self.config['global_exec']")],
+         ensures=[("one-verdict", _ONE),
+                  ("failed-iff-recorded", "result['failed'] == (self.exc_info is not None)"),
+                  ("stdout-restored", "sys.stdout is old(sys.stdout)")],
+         raises={"Exception*?": "(on_error if on_error is not None else old(self.config['on_error'])) != 'return' "
+                                "and sys.stdout is old(sys.stdout)",
+                 "BaseException*?": "sys.stdout is old(sys.stdout)"},
+         loops={0: LoopSpec(
+             header="enumerate(self._parts)",
+             types={"test_globals": "=self.global_namespace", "compileflags": "int",
+                    "self._skipped_parts": "idxlist[self._parts]"},
+             exit_post=[("stdout-is-original", "sys.stdout is old(sys.stdout)"),
+                        ("skipped-at-most-all", "len(self._skipped_parts) <= len(self._parts)"),
+                        ("a-failing-part-is-not-skipped", "implies(self.exc_info is not None, "
+                                                          "len(self._skipped_parts) < len(self._parts))")],
+             invariants=[
+                 ("debug-off", "not DEBUG"),
+                 ("no-failure-yet", "self.exc_info is None"),
+                 ("skipped-at-most-visited", "len(self._skipped_parts) <= _i0"),
+                 ("stdout-is-original", "sys.stdout is old(sys.stdout)"),
+                 ("capture-object", "cap.enabled and cap.orig_stdout is old(sys.stdout) and "
+                                    "0 <= cap._pos and cap._pos <= len(cap.cap_stdout.buf)"),
+                 ("globals-dict", "implies(did_pre_import, test_globals is self.global_namespace)"),
+             ]),
+                1: LoopSpec(
+             header="_traverse_traceback(tb)",
+             ghost={"tbs": "tb_entries(tb)"},
+             invariants=[
+                 ("not-found-yet", "found_lineno is None"),
+                 ("earlier-frames-foreign", "all(tbs[j].tb_frame.f_code.co_filename != self._partfilename for j in range(0, _i1))"),
+             ])},
+         props=["C01", "C02", "C03", "C04", "C09", "C10", "C11", "C12", "C15"],
+         opts={"native": False,
+               "entry_types": {"DocTest.exc_info": "Optional[Val]", "DocTest.failed_part": "Optional[Val]"}},
+         sentinel=("never-fails", "not result['failed']"))
 
 # ------------------------------------------------------------------------ C10: force-disable
 contract(_Q + "is_disabled",
